@@ -56,6 +56,15 @@ def msg_id(x):
 class SimQueue:
     """FIFO queue whose blocking get() is scheduled by the simulator."""
 
+    def __new__(cls, *a, **k):
+        # created by code that does not run under the simulator (the
+        # single-threaded engines, helper threads the library starts there):
+        # the real primitive - a stand-in that never blocks would turn a
+        # correct program into a busy loop or a race
+        if _sim() is None:
+            return _queue.Queue(*a, **k)
+        return object.__new__(cls)
+
     _count = 0
 
     def __init__(self, maxsize=0):
@@ -255,6 +264,15 @@ class _Alive:
 
 
 class SimLock:
+
+    def __new__(cls, *a, **k):
+        # created by code that does not run under the simulator (the
+        # single-threaded engines, helper threads the library starts there):
+        # the real primitive - a stand-in that never blocks would turn a
+        # correct program into a busy loop or a race
+        if _sim() is None:
+            return (_threading.RLock() if cls is SimRLock else _threading.Lock())
+        return object.__new__(cls)
     def __init__(self):
         self.owner = None
         self.depth = 0
@@ -313,6 +331,15 @@ class SimRLock(SimLock):
 
 
 class SimEvent:
+
+    def __new__(cls, *a, **k):
+        # created by code that does not run under the simulator (the
+        # single-threaded engines, helper threads the library starts there):
+        # the real primitive - a stand-in that never blocks would turn a
+        # correct program into a busy loop or a race
+        if _sim() is None:
+            return _threading.Event()
+        return object.__new__(cls)
     def __init__(self):
         self.flag = False
         self.waiters = []
@@ -352,6 +379,15 @@ class SimEvent:
 class SimCondition:
     """threading.Condition on the scheduler (wait releases the lock, blocks
     in virtual time, re-acquires)."""
+
+    def __new__(cls, *a, **k):
+        # created by code that does not run under the simulator (the
+        # single-threaded engines, helper threads the library starts there):
+        # the real primitive - a stand-in that never blocks would turn a
+        # correct program into a busy loop or a race
+        if _sim() is None:
+            return _threading.Condition(*a, **k)
+        return object.__new__(cls)
 
     def __init__(self, lock=None):
         self._lock = lock if lock is not None else SimRLock()
@@ -416,6 +452,15 @@ class SimCondition:
 
 
 class SimSemaphore:
+
+    def __new__(cls, *a, **k):
+        # created by code that does not run under the simulator (the
+        # single-threaded engines, helper threads the library starts there):
+        # the real primitive - a stand-in that never blocks would turn a
+        # correct program into a busy loop or a race
+        if _sim() is None:
+            return _threading.Semaphore(*a, **k)
+        return object.__new__(cls)
     def __init__(self, value=1):
         self.value = value
         self.waiters = []
@@ -571,6 +616,9 @@ class _FileReadProxy:
         self._frag = 0
         self.served_bytes = 0
         self.short_reads = 0
+        self.reads = 0
+        self.eof_returned = 0
+        self.reads_after_eof = 0
         READERS.append(self)
 
     def read(self, n=-1):
@@ -589,6 +637,11 @@ class _FileReadProxy:
             n = k
         d = _real(self._real.read, n)
         self.served_bytes += len(d)
+        self.reads += 1
+        if self.eof_returned:
+            self.reads_after_eof += 1
+        if not d and n != 0:
+            self.eof_returned += 1
         if s is not None:
             s.note("file.data", len(d))
         return d
@@ -778,6 +831,44 @@ def _make_subprocess_shim():
     return m
 
 
+# ------------------------------------------------------------ shim: signal
+import signal as _signal
+
+
+class _SignalShim(types.ModuleType):
+    def __getattr__(self, name):
+        return getattr(_signal, name)
+
+
+def _make_signal_shim():
+    """signal.signal() only works in the main thread of the interpreter; the
+    simulated program's main thread is a carrier.  A SIGINT handler the
+    program installs is kept by the simulator, and the simulated Ctrl-C runs
+    it in the simulated main thread instead of raising KeyboardInterrupt."""
+    m = _SignalShim("signal(sim)")
+
+    def signal(signum, handler):
+        s = _sim()
+        if s is None or signum != _signal.SIGINT:
+            if s is not None:
+                return _signal.SIG_DFL     # other signals: accepted, inert
+            return _signal.signal(signum, handler)
+        prev = s.sigint_handler
+        s.sigint_handler = handler
+        s.note("signal.install", getattr(handler, "__name__", str(handler)))
+        return prev if prev is not None else _signal.default_int_handler
+
+    def getsignal(signum):
+        s = _sim()
+        if s is None or signum != _signal.SIGINT:
+            return _signal.getsignal(signum)
+        h = s.sigint_handler
+        return h if h is not None else _signal.default_int_handler
+
+    m.signal, m.getsignal = signal, getsignal
+    return m
+
+
 # ------------------------------------------------------------ print capture
 PRINTED = []
 
@@ -892,6 +983,7 @@ def bind():
         "wave": _make_wave_shim(),
         "os": _make_os_shim(),
         "subprocess": _make_subprocess_shim(),
+        "signal": _make_signal_shim(),
     }
     _BOUND["shims"] = shims
     _install_global_time(shims["time"])
@@ -936,6 +1028,12 @@ def bind():
                 new = shims["os"].system
             elif val is _subprocess and short == "workers":
                 new = shims["subprocess"]
+            elif val is _signal:
+                new = shims["signal"]
+            elif val is _signal.signal:
+                new = shims["signal"].signal
+            elif val is _signal.getsignal:
+                new = shims["signal"].getsignal
             if new is not None:
                 setattr(mod, name, new)
                 report.append((short, name, type(new).__name__))
